@@ -7,6 +7,21 @@ HERE = os.path.dirname(os.path.dirname(os.path.abspath(__file__)))
 BASELINE = "cd /repo && /venv/bin/python -m pytest -ra -q -p no:cacheprovider --timeout=900 --continue-on-collection-errors"
 
 CHECKS = {
+    'C05': dict(
+        text='Lean: a model of SuiteTransformer and of the tree transforms (pass, asserts, debug, literal statements with the __doc__ guard, '
+             'imports, return None, object base, annotations with the dataclass/NamedTuple/TypedDict exemption, positional-only markers, '
+             'exception brackets on spec-supplied names) composed in the order and under the conditions of the generated pipeline table; a '
+             'specification canon_O of the documented rewrites; theorems: for remove_pass, remove_asserts and remove_literal_statements the '
+             'output equals the input modulo canon at every nesting depth (mutual induction over statements), blocks never become empty, '
+             'statements of other kinds are all kept, combining imports preserves the sequence of imported names, all-off is the identity, '
+             'the pipeline table equals the modelled one (decide). Tie: the model prints the same text as minify() on every statement-kind x '
+             'suite-kind template and random modules under single switches, default flips, pairs and random subsets. For the remaining '
+             'options canon_O(minify(P,O)) == canon_O(P) is evaluated on the real code with the Lean specification as the oracle.',
+        note='PARTIAL: absorption theorems are proved for three of the transforms; for debug / return None / object / annotations / '
+             'posargs / brackets / folding the canon is an oracle, not a theorem (folding is C07). Which names are un-shadowed builtins comes '
+             'from tools/scopes.py. Trusted: Spec/Rewrites.lean as the reading of the documentation.',
+        technique='Lean 4 proof (mutual structural induction, canon absorption) + model/implementation text correspondence + documented-rewrite canon oracle',
+        ref='§6 C05'),
     'C04': dict(
         text='Lean theorems on the NameAssigner model: a binding that may not be renamed keeps its name for every input; every name given '
              'to a module-level binding carries the underscore prefix when rename_globals is off, and is otherwise a generator-table '
